@@ -93,11 +93,11 @@ def axioms_for(formulas, pairwise=True, sumsplit=True):
         if z3.is_app(y) and y.decl().kind() == z3.Z3_OP_MUL and y.num_args() == 2:
             p, q = y.arg(0), y.arg(1)
             ax.append(z3.Implies(z3.And(p > 0, q > 0), l == LOG(p) + LOG(q)))
-    if pairwise:
+    if pairwise and len(exps) <= 8:
         for e1, e2 in itertools.combinations(exps, 2):
             a, b = e1.arg(0), e2.arg(0)
             ax.append(z3.And(z3.Implies(a < b, e1 < e2), z3.Implies(a == b, e1 == e2), z3.Implies(a > b, e1 > e2)))
-        for l1, l2 in itertools.combinations(logs, 2):
+        for l1, l2 in (itertools.combinations(logs, 2) if len(logs) <= 8 else []):
             a, b = l1.arg(0), l2.arg(0)
             ax.append(z3.Implies(z3.And(a > 0, b > 0),
                                  z3.And(z3.Implies(a < b, l1 < l2), z3.Implies(a == b, l1 == l2))))
